@@ -23,6 +23,7 @@ Driver for C10: replays the traces observed by harness/h_C10.cpp on the IR seman
   nvnew <n>                -> `nv ok …`           a new `Circuit(n)` on the value semantics of the net arrays (`Model/NetsValue.lean`)
   nvadd <k> <k cells> <nx> <ny>                   `addNet` with k pin cells and offset vectors of nx / ny entries
   nvset <m> <m limits> <k> <k cells> <nx> <ny> <nw>   `setNets`
+  nvweights <nw>                                      `setNetWeights` with nw weights
                            -> `nv ok|throw <Wf 0|1> L <netLimits_> P <pinCells_> S <|xoffs|> <|yoffs|> <|weights|> G <nbNets()> <per net: nbPinsNet(n) pinCell(n,0..)>`
 -/
 open ColoVerif ColoVerif.Busy ColoVerif.BusyIO ColoVerif.BusySizes ColoVerif.Gen Driver
@@ -59,6 +60,7 @@ def nvOp (ws : List String) : Option NetsValue.Op :=
     match r2 with
     | [nx, ny, nw] => some (.set limits cells nx.toNat! ny.toNat! nw.toNat!)
     | _ => none
+  | ["nvweights", nw] => some (.weights nw.toNat!)
   | _ => none
 
 structure DS where
@@ -111,7 +113,7 @@ def step (s : DS) : List String → DS × List String
         | none => (s, ["bad-set"])
       | "szset" :: name :: busy :: free :: rest => (s, [szLine name busy free rest])
       | ["nvnew", n] => ({ s with nets := NetsValue.init (Driver.int! n) }, [nvLine true (NetsValue.init (Driver.int! n))])
-      | "nvadd" :: _ | "nvset" :: _ =>
+      | "nvadd" :: _ | "nvset" :: _ | "nvweights" :: _ =>
         match nvOp ws with
         | some o =>
           let s' := NetsValue.step s.nets o
